@@ -34,11 +34,11 @@ import (
 // World bundles a chain with the naming universe and program table of one trace.
 type World struct {
 	NContracts int // contracts c0.. of the menu
-	C   *chain.Chain
-	U   *prog.Universe
-	T   *prog.Table
-	Tid string
-	R   *rand.Rand
+	C          *chain.Chain
+	U          *prog.Universe
+	T          *prog.Table
+	Tid        string
+	R          *rand.Rand
 }
 
 func contractAddr(i int) common.Address {
@@ -89,7 +89,7 @@ func StdMenu(u *prog.Universe, t *prog.Table, pfx string) []chain.GenContract {
 	t.DefineInit(pfx+"i0", []prog.Op{sstore("s0", 1), logN(1)}, u)
 	t.DefineInit(pfx+"i1", []prog.Op{sstore("s0", 1), opRevert}, u)
 	t.DefineInit(pfx+"i2", []prog.Op{}, u)
-	t.DefineInit(pfx+"i3", []prog.Op{logN(1)}, u)                              // used with empty runtime code
+	t.DefineInit(pfx+"i3", []prog.Op{logN(1)}, u)                             // used with empty runtime code
 	t.DefineInit(pfx+"i4", []prog.Op{sstore("s0", 1), selfdestruct("a2")}, u) // constructor self-destructs
 
 	cr := func(salt uint64, init string, value int64, addrName string) prog.Op {
@@ -145,15 +145,15 @@ func StdMenu(u *prog.Universe, t *prog.Table, pfx string) []chain.GenContract {
 		},
 		// c4: orchestrator
 		{
-			"e0": {call("CALL", "c3", "e1", 4), call("CALL", "c3", "e0", 6), call("CALL", "c3", "e1", 0), call("CALL", "c3", "e3", 0)},
-			"e1": {call("CALL", "c3", "e4", 1), call("CALL", "c3", "e0", 2)},
-			"e2": {call("CALL", "m0", "e0", 0)},
-			"e3": {call("CALL", "v0", "e0", 0)},
-			"e4": {call("CALL", "c3", "e2", 3), opRevert},
-			"e5": {call("CALL", "z0", "e0", 0), sstore("s0", 1)},
-			"e6": {call("STATICCALL", "z0", "e0", 0)},
-			"e7": {call("CALL", "v1", "e0", 0)},
-			"e8": {call("CALL", "fc", "e0", 1)},
+			"e0":  {call("CALL", "c3", "e1", 4), call("CALL", "c3", "e0", 6), call("CALL", "c3", "e1", 0), call("CALL", "c3", "e3", 0)},
+			"e1":  {call("CALL", "c3", "e4", 1), call("CALL", "c3", "e0", 2)},
+			"e2":  {call("CALL", "m0", "e0", 0)},
+			"e3":  {call("CALL", "v0", "e0", 0)},
+			"e4":  {call("CALL", "c3", "e2", 3), opRevert},
+			"e5":  {call("CALL", "z0", "e0", 0), sstore("s0", 1)},
+			"e6":  {call("STATICCALL", "z0", "e0", 0)},
+			"e7":  {call("CALL", "v1", "e0", 0)},
+			"e8":  {call("CALL", "fc", "e0", 1)},
 			"e9":  {sstore("s1", 1), call("CALL", "c3", "e5", 2)},
 			"e10": {call("CALL", "c3", "e1", 1), call("CALL", "c7", "e1", 1), call("CALL", "c7", "e0", 3)},
 			"e11": {call("CALL", "c7", "e2", 0), call("CALL", "c3", "e2", 2)},
@@ -600,6 +600,7 @@ func NewEthWorld(tbl *prog.Table, r *rand.Rand, tid string, tweak func(*chain.Op
 	u.Add("evm", chain.EvmModule)
 	u.Add("distr", chain.DistrModule)
 	u.Add("m0", chain.ModuleAddr("mint"))
+	u.Add("gv", chain.GovModule)
 	for i := 0; i < 3; i++ {
 		u.Add(fmt.Sprintf("x%d", i), freshAddr(i))
 	}
@@ -650,7 +651,15 @@ func (w *World) GenCosmosSend(nextNonce map[string]uint64, baseFee int64) ([]byt
 }
 
 func genOneEthTx(out *trace.W, tbl *prog.Table, r *rand.Rand, tid string, blocks int, stats map[string]int) {
-	w, o := NewEthWorld(tbl, r, tid, nil)
+	plan := NewGovPlan(r, blocks)
+	w, o := NewEthWorld(tbl, r, tid, func(o *chain.Opts) {
+		if plan != nil {
+			o.Patch = GovPatch
+			if o.MaxGas >= 0 && o.MaxGas < 350000 {
+				o.MaxGas = 350000 // room for the governance transactions (300000 gas each)
+			}
+		}
+	})
 	c := w.C
 
 	g := w.Project()
@@ -685,6 +694,13 @@ func genOneEthTx(out *trace.W, tbl *prog.Table, r *rand.Rand, tid string, blocks
 		// nonces advance inside the block for consecutive txs of the same sender
 		nextNonce := map[string]uint64{}
 		baseFee := c.BaseFee().Int64()
+		govIdx := -1
+		if bz, t := w.govTx(plan, b, nextNonce, baseFee); bz != nil {
+			govIdx = len(txs)
+			txs = append(txs, bz)
+			ps = append(ps, pend{kind: "Cosmos", t: t})
+			stats["gov-tx"]++
+		}
 		for i := 0; i < n; i++ {
 			if r.Intn(6) == 0 {
 				bz, t := w.genCosmosSend(nextNonce, baseFee)
@@ -737,7 +753,20 @@ func genOneEthTx(out *trace.W, tbl *prog.Table, r *rand.Rand, tid string, blocks
 		// the fee market's view: read back what EndBlock computed
 		nb := c.BaseFee()
 		bg := feeMarketGas(bo.Res)
-		out.Emit(trace.M{"ev": "End", "panic": false, "blockGas": bg, "nextBaseFee": trace.I(nb), "blockBloomBits": BlockBloomBits(bo.Res)})
+		end := trace.M{"ev": "End", "panic": false, "blockGas": bg, "nextBaseFee": trace.I(nb), "blockBloomBits": BlockBloomBits(bo.Res)}
+		gcode, gdata := int64(-1), []byte(nil)
+		if govIdx >= 0 {
+			gcode, gdata = codeOf(bo.Res.TxResults[govIdx]), bo.Res.TxResults[govIdx].Data
+		}
+		if g := w.govAfterBlock(plan, b, gcode, gdata); g != nil {
+			end["gov"] = g
+			if g["passed"].(bool) {
+				stats["gov-params-executed"]++
+			} else {
+				stats["gov-proposal-rejected"]++
+			}
+		}
+		out.Emit(end)
 		st := w.Project()
 		st["ev"] = "State"
 		out.Emit(st)
@@ -795,9 +824,9 @@ func (w *World) genCosmosSend(nextNonce map[string]uint64, baseFee int64) ([]byt
 	gas := uint64(200000)
 	price := baseFee + int64(r.Intn(3))
 	if r.Intn(8) == 0 {
-		price = baseFee - 1
+		price = maxI(baseFee-1, 0)
 	}
-	if minp := floorDec(w.C.Opts.MinGasPrice); price < minp && r.Intn(3) != 0 {
+	if minp := w.MinGP(); price < minp && r.Intn(3) != 0 {
 		price = minp
 	}
 	bad := r.Intn(10) == 0
@@ -813,7 +842,7 @@ func (w *World) genCosmosSend(nextNonce map[string]uint64, baseFee int64) ([]byt
 	if useSeq == seq && !bad {
 		// predicted admission is the spec's business; the driver only tracks its best guess for nonces
 		fee := int64(gas) * price
-		if price >= maxI(baseFee, floorDec(w.C.Opts.MinGasPrice)) && w.C.Bal(from.Addr, chain.Denom).Int64() >= fee {
+		if price >= maxI(baseFee, w.MinGP()) && w.C.Bal(from.Addr, chain.Denom).Int64() >= fee {
 			nextNonce[fname] = seq + 1
 		}
 	}
@@ -855,7 +884,7 @@ func (w *World) genEthSpec(nextNonce map[string]uint64, baseFee int64, created *
 	s.Nonce = seq
 	s.Type = r.Intn(3)
 	s.AL = s.Type > 0 && r.Intn(3) == 0
-	floor := maxI(baseFee, floorDec(w.C.Opts.MinGasPrice))
+	floor := maxI(baseFee, w.MinGP())
 	s.Price = floor + int64(r.Intn(4))
 	if s.Type == 2 {
 		s.Tip = int64(r.Intn(4))
@@ -922,7 +951,7 @@ func (w *World) genEthSpec(nextNonce map[string]uint64, baseFee int64, created *
 		s.Tamper = "sig"
 		s.Class = "tamper-sig"
 	case k == 7:
-		s.Price = floor - 1
+		s.Price = maxI(floor-1, 0)
 		s.Class = "price-below-floor"
 	case k == 8:
 		s.Value = 2_000_000_000
@@ -955,7 +984,8 @@ func (w *World) genEthSpec(nextNonce map[string]uint64, baseFee int64, created *
 		if s.Type == 2 && s.Tip+baseFee < s.Price {
 			eff = s.Tip + baseFee
 		}
-		off := (s.To == "create" && w.C.Opts.EvmDisableCreate) || (s.To != "create" && w.C.Opts.EvmDisableCall)
+		ep := w.C.App.EvmKeeper.GetParams(w.C.Ctx())
+		off := (s.To == "create" && !ep.EnableCreate) || (s.To != "create" && !ep.EnableCall)
 		if !off && eff >= floor && w.C.Bal(from.Addr, chain.Denom).Int64() >= int64(s.Gas)*eff {
 			nextNonce[s.FromName] = seq + 1
 		}
